@@ -18,6 +18,15 @@ Spec: spec/SourceLayers.tla (round 4): WHERE a component has opacity (per layer:
       Guard = tangent | top and KAvg = total are refuted.  The exported input classes are realised on a real
       non-isothermal 6-layer model (fx_c03layers.py) in every list order; the harness evaluator of the documented
       formula is validated against the exported exact values first.  all_sources / stored_table run in both modes.
+      Round 5: the MAGNITUDE of the abundance (mixing ratio 10^-e, e on the lattice AbExps = 1..20, in all or some layers,
+      cross-sections scaled so that the optical depth stays of order one) as a further input dimension with the invariant
+      ProportionalToAbundance; variant AbFloor = 12 (below 1e-12 = "absent") is refuted.  Realised by fx_c03abund.py
+      (abundance_classes); weighted_opacity_exact compares every component's weighted opacity with cross-section x
+      mixing ratio(s) at relative 1e-12 in every layer class.
+Spec: spec/ListRoutes.tla (round 5): HOW the component list reaches a source (ctor keyword / omitted, setter, in-place
+      append / extend / += / remove of the live list; before the first evaluation and between evaluations), invariant
+      RouteFree; variant CountAt = "assign" is refuted.  TLC-simulated behaviours are replayed on one long-lived CIA
+      contribution in a long-lived model, every evaluation against a fresh contribution CONSTRUCTED with the current list.
 """
 import itertools
 import math
@@ -30,6 +39,7 @@ from ..fixtures import LayerOpacity, reset_caches
 from ..fx_model import FixtureCIA, make_transmission, chord_table, tau_layers
 from .. import core
 from .. import fx_c03layers as fxl
+from .. import fx_c03abund as fxa
 
 WN = np.array([800.0, 1600.0, 2400.0, 3200.0, 4000.0])
 NL = 6
@@ -327,6 +337,24 @@ def weighting(ctx):
     s2 = dict((g, np.array(s)) for g, s in m2.contribution_list[0].prepare_each(m2, WN))
     ctx.verdict('proportional_to_abundance', same_rel(s2['CH4'], 2.0 * s1['CH4']) and same_rel(s2['H2O'], s1['H2O']),
                 cls='CH4x2', detail='doubling CH4 did not double its weighted opacity (or changed H2O)', vector=dict(gas='CH4'))
+    # ... at every magnitude of the documented domain (lattice of SourceLayers.AbExps, here through ConstantGas): the
+    # quotient weighted opacity / mixing ratio is the cross-section itself (REL_W: one product on either side)
+    for e in (1, 4, 8, 12, 16, 20):
+        for mant in (1.0, 4.0, 8.0):
+            mixv = mant * 10.0 ** (-e)
+            me = build_model(['abs'], params, ch4=mixv)
+            me.model()
+            se = dict((g, np.array(s)) for g, s in me.contribution_list[0].prepare_each(me, WN))
+            Pe = np.asarray(me.pressureProfile, dtype=float)
+            mp = np.asarray(me.chemistry.get_gas_mix_profile('CH4'), dtype=float)
+            if not np.all(np.abs(mp - mixv) <= 1e-12 * mixv):
+                raise Machinery('fixture: ConstantGas CH4 = %g not reproduced: %r' % (mixv, mp))
+            want = np.array([xsec_of('CH4')(1000.0, Pe[k]) * mp[k] for k in range(NL)])
+            got = se.get('CH4')
+            ok = got is not None and got.shape == want.shape and bool(np.all(np.abs(got - want) <= REL_W * np.abs(want)))
+            ctx.verdict('proportional_to_abundance', ok, cls='CH4=%ge-%d' % (mant, e),
+                        detail='weighted opacity of CH4 at mixing ratio %g is not cross-section x mixing ratio (relative 1e-12)' % mixv,
+                        vector=dict(gas='CH4', mix=mixv))
     # all insertion orders give the same spectrum and the same evaluation order (clouds first)
     ref = None
     for perm in itertools.permutations(['abs', 'cia', 'ray', 'cloud']):
@@ -587,12 +615,15 @@ def spec_layers(ctx):
     ctx.expect_refuted('source-layers-tangent-guard', 'SourceLayers', 'MC_SourceLayers_guard.cfg', 'LayerByLayer')
     # correlated-k mean taken over the optical depth already accumulated and then added: refuted by the product rule
     ctx.expect_refuted('source-layers-kmean-over-total', 'SourceLayers', 'MC_SourceLayers_kavg.cfg', 'ProductOverSources')
+    # a mixing ratio below 1e-12 taken as "absent": refuted by the proportionality clause (thorough: and layer by layer)
+    ctx.expect_refuted('source-layers-abundance-floor', 'SourceLayers', 'MC_SourceLayers_floor.cfg', 'ProportionalToAbundance')
     if not q:
         ctx.check_spec('source-layers-all', 'SourceLayers', 'MC_SourceLayers_all.cfg')
         ctx.check_spec('source-layers-support-guard', 'SourceLayers', 'MC_SourceLayers_support.cfg')      # the licensed guard
         ctx.check_spec('source-layers-nl3', 'SourceLayers', 'MC_SourceLayers_nl3.cfg')       # three layers, components 2+1+1
         ctx.expect_refuted('source-layers-tangent-guard-components', 'SourceLayers', 'MC_SourceLayers_guardcomp.cfg', 'ProductOverComponents')
         ctx.expect_refuted('source-layers-top-guard', 'SourceLayers', 'MC_SourceLayers_guardtop.cfg', 'LayerByLayer')
+        ctx.expect_refuted('source-layers-abundance-floor-layers', 'SourceLayers', 'MC_SourceLayers_floorlayers.cfg', 'LayerByLayer')
         ctx.expect_refuted('source-layers-kmean-order', 'SourceLayers', 'MC_SourceLayers_kavgorder.cfg', 'OrderFree')
     fxl.validate_evaluator(vecs)
     return vecs
@@ -615,7 +646,8 @@ def layer_classes(ctx, vecs, nextra):
     rng = random.Random(ctx.seed * 104729 + 11)
     by = {}
     for v in vecs:
-        by.setdefault(_key(v), v)
+        if all(x == fxa.ORD for sc in v.get('e', []) for c in sc for x in c):       # the ordinary abundance
+            by.setdefault(_key(v), v)
     pats = sorted({k[0] for k in by})
     chosen = [_pattern(d) for d in MUST]
     rest = [p for p in pats if p not in chosen]
@@ -642,9 +674,87 @@ def _T(m):
     return T
 
 
+# SourceLayers.ProportionalToAbundance on the real model.  The weighted opacity of a component in a layer is ONE product
+# (cross-section x mixing ratio; x the partner's ratio for a pair; x the cm^2 -> m^2 factor of a k-table), formed by the
+# code and by the harness from the same doubles: at most 4 roundings of 1.1e-16 each on either side.  REL_W = 1e-12
+# leaves a factor 1000 and is purely relative, so it means the same at 1e-20 as at 0.1; exact zeros must be exact.
+REL_W = 1e-12
+
+
+def weighted_exact(ctx, lc, m, at, base, vec):
+    for s in lc.SRC:
+        if s == 'third':
+            continue                 # the grey haze's abundance IS its opacity; H- has no fixture cross-section
+        tabs, _ = lc.tables(s, at, dens=False)
+        n = lc.name_of(s)
+        c = [x for x in m.contribution_list if x.name == n][0]
+        got = [(cn, np.array(sg, dtype=float)) for cn, sg in c.prepare_each(m, fxl.WN)]
+        ok = [cn for cn, _ in got] == lc.components_of(s)
+        worst = 0.0
+        if ok:
+            for (cn, sg), tab in zip(got, tabs):
+                w = np.asarray(tab, dtype=float)
+                if sg.shape != w.shape or not np.all(np.isfinite(sg)):
+                    ok = False
+                    break
+                bad = np.abs(sg - w) > REL_W * np.abs(w)
+                if bad.any():
+                    ok = False
+                    worst = max(worst, float(np.max(np.abs(sg - w)[bad] / np.maximum(np.abs(w)[bad], 1e-300))))
+        ctx.verdict('weighted_opacity_exact', ok, cls='%s:%s' % (base, n),
+                    detail='the weighted opacity of a component of %s is not cross-section x mixing ratio layer by layer '
+                           '(relative 1e-12; worst relative deviation %.3g)' % (n, worst), vector=vec)
+
+
+def abundance_classes(ctx, vecs, nextra):
+    """The abundance-magnitude classes exported by SourceLayers (one component at 10^-e, e on the lattice, in all or
+    some layers) on the real model: every clause of one_layer_class, with cross-sections scaled so that the optical
+    depth stays of order one at every magnitude."""
+    rng = random.Random(ctx.seed * 15485863 + 17)
+    ordp = lambda v: all(x == fxa.ORD for s in v['e'] for c in s for x in c)
+    real = []
+    for v in vecs:
+        if ordp(v):
+            continue
+        moved = [(si, ci) for si, s in enumerate(v['e']) for ci, c in enumerate(s) if any(x != fxa.ORD for x in c)]
+        if all(mc_ in fxa.GAS_OF for mc_ in moved):
+            real.append((moved[0], v))
+    if len(real) < 100:
+        raise Machinery('SourceLayers exported only %d realisable abundance classes' % len(real))
+    full = lambda v: all(x == 1 for s in v['a'] for c in s for x in c)
+    kn = lambda v: None if v['mode'] == 'xsec' else ('degenerate' if len(set(v['kc']['mul'])) == 1 else 'generic')
+    exps = sorted({x for _, v in real for s in v['e'] for c in s for x in c} - {fxa.ORD})
+    must, rest = [], []
+    for comp, v in real:
+        pat = v['e'][comp[0]][comp[1]]
+        uniform = len(set(pat)) == 1
+        # every magnitude of the lattice, uniform, for every species with an abundance; the ends of the domain also
+        # in some layers only (a profile that decays / grows with altitude) and through the k-tables
+        if v['mode'] == 'xsec' and full(v) and (uniform or set(pat) & {exps[0], exps[-1]}):
+            must.append(v)
+        elif v['mode'] == 'ktables' and full(v) and uniform and comp[0] == 0 and pat[0] in (exps[0], 12, exps[-1]) and kn(v) == 'generic':
+            must.append(v)
+        else:
+            rest.append(v)
+    chosen = must + rng.sample(rest, min(nextra, len(rest)))
+    env = fxl.OpacityEnv()
+    try:
+        for i, v in enumerate(chosen):
+            lc = fxa.AbundanceClass(v['a'], v['e'], v['mode'], kn(v), 'flat' if i % 2 == 0 else 'hm')
+            lc.enter(env)
+            one_layer_class(ctx, lc)
+            ctx.traces += 1
+    finally:
+        env.leave()
+        install_fixtures()
+    return len(chosen)
+
+
 def one_layer_class(ctx, lc):
     vec = dict(layers=True, a=[list(map(list, s)) for s in lc.a], mode=lc.mode, kname=lc.kname, third=lc.third)
-    base = 'layers:' + lc.tag
+    if getattr(lc, 'e', None) is not None:
+        vec['e'] = [list(map(list, s)) for s in lc.e]
+    base = getattr(lc, 'prefix', 'layers') + ':' + lc.tag
     try:
         alone, at = {}, None
         for s in lc.SRC:
@@ -668,6 +778,7 @@ def one_layer_class(ctx, lc):
         mc = proj_contrib(m.model_contrib())
         mf = proj_full(m.model_full_contrib())
         dens = at['n']
+        weighted_exact(ctx, lc, m, at, base, vec)
         ctx.verdict('every_source_once', sorted(mc) == sorted(lc.name_of(s) for s in lc.SRC) and sorted(mf) == sorted(mc), cls=base,
                     detail='sources %r / %r' % (sorted(mc), sorted(mf)), vector=vec)
         for s in lc.SRC:
@@ -713,11 +824,166 @@ def one_layer_class(ctx, lc):
         ctx.verdict('history_no_exception', False, cls=base, detail='%s: %s' % (type(e).__name__, e), vector=vec)
 
 
+# ----------------------------------------------------------------------------
+# spec/ListRoutes.tla: how the component list reaches a source (round 5)
+# ----------------------------------------------------------------------------
+
+ROUTE_OPS = ('ctor', 'ctor0', 'assign', 'append', 'extend', 'iadd', 'remove')
+
+
+def route_classes(hist):
+    """the (route, phase) classes a behaviour exercises: every list operation that is followed by an evaluation
+    (the replay evaluates at the end of every behaviour), before the first evaluation or between evaluations"""
+    out, seen_eval, n, n_at_eval = set(), False, 0, None
+    for ev in hist:
+        if ev['op'] == 'eval':
+            seen_eval, n_at_eval = True, n
+        else:
+            n = dict(ctor=len(ev['l']), ctor0=0, assign=len(ev['l']), remove=n - 1).get(ev['op'], n + len(ev['l']))
+            out.add((ev['op'], 'between-evals' if seen_eval else 'before-first-eval'))
+            if seen_eval and n_at_eval == 0:          # the source was last evaluated while it had no component
+                out.add((ev['op'], 'between-evals:after-empty-eval'))
+    return out
+
+
+def build_routed(cia):
+    from taurex.data.profiles.chemistry import TaurexChemistry, ConstantGas
+    from taurex.data.profiles.temperature import Isothermal
+    from taurex.contributions import AbsorptionContribution, RayleighContribution
+    chem = TaurexChemistry(fill_gases=['H2', 'He'], ratio=0.17)
+    chem.addGas(ConstantGas('H2O', mix_ratio=MIX[0]))
+    chem.addGas(ConstantGas('CH4', mix_ratio=2e-4))
+    m = make_transmission(NL, chemistry=chem, temperature=Isothermal(T=2500.0), pmin=1e0, pmax=1e5)
+    for c in (AbsorptionContribution(), cia, RayleighContribution()):
+        m.add_contribution(c)
+    m.build()
+    return m
+
+
+def observe_routed(m, how='fullc'):
+    T = np.asarray(m.model()[2], dtype=float)
+    mc = proj_contrib(m.model_contrib()) if how in ('contrib', 'fullc') else None
+    mf = proj_full(m.model_full_contrib()) if how == 'fullc' else None
+    return T, mc, mf
+
+
+def replay_routes(ctx, beh, fresh_cache):
+    """one TLC behaviour of ListRoutes on ONE long-lived CIA contribution inside a long-lived model; every evaluation
+    against a fresh model whose CIA contribution was CONSTRUCTED with the current list"""
+    from taurex.contributions import CIAContribution
+    from taurex.cache import CIACache
+    if 'H2-H2' not in CIACache().cia_dict:
+        CIACache().add_cia(FixtureCIA('H2-H2', WN, [1000.0], [CIA_TAB2]))
+    hist = list(beh['hist'])
+    if hist[-1]['op'] != 'eval':
+        hist.append(dict(op='eval', l=['fullc']))          # Evaluate is always enabled
+    vec = dict(routes=True, hist=beh['hist'])
+    cur, since, phase, m, cia = None, [], 'before-first-eval', None, None
+    try:
+        for ev in hist:
+            op, l = ev['op'], list(ev['l'])
+            if op in ('ctor', 'ctor0'):
+                cia = CIAContribution() if op == 'ctor0' else CIAContribution(cia_pairs=list(l))
+                m = build_routed(cia)
+                cur = list(l)
+            elif op == 'assign':
+                cia.ciaPairs = list(l)
+                cur = list(l)
+            elif op == 'append':
+                cia.ciaPairs.append(l[0])
+                cur = cur + l
+            elif op == 'extend':
+                cia.ciaPairs.extend(l)
+                cur = cur + l
+            elif op == 'iadd':
+                live = cia.ciaPairs
+                live += l                           # in place on the live list (no setter involved)
+                cur = cur + l
+            elif op == 'remove':
+                cia.ciaPairs.remove(l[0])
+                cur = [p for p in cur if p != l[0]]
+            elif op != 'eval':
+                raise Machinery('unknown route op %r' % (op,))
+            if op != 'eval':
+                since.append(op)
+                continue
+            cls = 'route:%s:%s:n=%d' % ('+'.join(since[-3:]) or 'again', phase, len(cur))
+            key = tuple(cur)
+            if key not in fresh_cache:
+                fresh_cache[key] = observe_routed(build_routed(CIAContribution(cia_pairs=list(cur))))
+                if cur and not float(fresh_cache[key][1]['CIA'].min()) < 0.99:
+                    raise Machinery('fixture: CIA with %r is transparent' % (cur,))
+            rT, rmc, rmf = fresh_cache[key]
+            T, mc, mf = observe_routed(m, l[0] if l else 'fullc')
+            held = list(cia.ciaPairs)
+            ctx.verdict('route_independent_components', held == cur and (mf is None or [c for c, _ in mf.get('CIA', [])] == cur), cls=cls,
+                        detail='the source holds %r and models the components %r; the list given is %r' % (
+                            held, mf and [c for c, _ in mf.get('CIA', [])], cur), vector=vec)
+            ctx.verdict('route_independent_model', same(T, rT), cls=cls,
+                        detail='T(model) differs from a fresh model whose CIA contribution was constructed with %r (max diff %.3g)' % (
+                            cur, float(np.abs(T - rT).max()) if T.shape == rT.shape else float('nan')), vector=vec)
+            if mc is None:
+                since, phase = [], 'between-evals'
+                continue
+            ctx.verdict('route_independent_source', 'CIA' in mc and same(mc['CIA'], rmc['CIA']), cls=cls,
+                        detail='T(CIA) from model_contrib() differs from a fresh contribution constructed with %r' % (cur,), vector=vec)
+            ctx.verdict('product_over_sources', same(T, np.prod([mc[n] for n in mc], axis=0)), cls=cls,
+                        detail='T(model) != product of the sources from model_contrib()', vector=vec)
+            if mf is None:
+                since, phase = [], 'between-evals'
+                continue
+            okc = [c for c, _ in mf.get('CIA', [])] == [c for c, _ in rmf.get('CIA', [])] and all(
+                same(a, b) for (_, a), (_, b) in zip(mf.get('CIA', []), rmf.get('CIA', [])))
+            ctx.verdict('route_independent_component', okc, cls=cls,
+                        detail='per-pair transmittances from model_full_contrib() differ from a fresh contribution constructed with %r' % (cur,), vector=vec)
+            if 'CIA' in mc and 'CIA' in mf:
+                ctx.verdict('product_over_components', same(np.prod([a for _, a in mf['CIA']] or [np.ones_like(T)], axis=0), mc['CIA']),
+                            cls=cls, detail='product of the pairs != T(CIA)', vector=vec)
+            since, phase = [], 'between-evals'
+    except Machinery:
+        raise
+    except Exception as e:   # noqa -- every route is public: a failure is a verdict
+        ctx.verdict('history_no_exception', False, cls='route:%s:%s' % ('+'.join(since[-3:]), phase),
+                    detail='%s: %s' % (type(e).__name__, e), vector=vec)
+
+
+def list_routes(ctx, nsim, nreplay):
+    ctx.check_spec('list-routes', 'ListRoutes', 'MC_ListRoutes.cfg')
+    # the count of components taken where the list is handed over (ctor / setter), not where it is used
+    ctx.expect_refuted('list-routes-count-at-assignment', 'ListRoutes', 'MC_ListRoutes_assign.cfg', 'RouteFree')
+    res = core.run_tlc('ListRoutes', 'SIM_ListRoutes.cfg', workers=1, simulate='num=%d' % nsim, depth=9, seed=ctx.seed + 5)
+    ctx.add_tlc('simulate-list-routes', res, counts=False)
+    behs, seen = [], set()
+    for b in res.tagged('ROUTE'):
+        if repr(b) not in seen:
+            seen.add(repr(b))
+            behs.append(b)
+    want = {(op, ph) for op in ROUTE_OPS for ph in ('before-first-eval', 'between-evals')} - {('ctor', 'between-evals'), ('ctor0', 'between-evals')}
+    want |= {(op, 'between-evals:after-empty-eval') for op in ('assign', 'append', 'extend', 'iadd')}
+    chosen, covered = [], {}
+    for b in behs:          # coverage first: every (route, phase) class at least three times, then fill up
+        cl = route_classes(b['hist'])
+        if any(covered.get(c, 0) < 3 for c in cl):
+            chosen.append(b)
+            for c in cl:
+                covered[c] = covered.get(c, 0) + 1
+    missing = want - set(covered)
+    if missing:
+        raise Machinery('TLC behaviours of ListRoutes never exercise %r' % (sorted(missing),))
+    chosen += [b for b in behs if b not in chosen][:max(0, nreplay - len(chosen))]
+    cache = {}
+    for b in chosen:
+        replay_routes(ctx, b, cache)
+        ctx.traces += 1
+
+
 def run(ctx):
     q = ctx.tier == 'quick'
     ctx.bounds = dict(layers='SourceLayers: 3 sources (2+2+1 components) x per-layer support {none, some}^%d x {xsec, ktables degenerate/generic} x all 6 list orders' % (2 if q else 3),
                       spec='4 contributions (2+2+2+1 components), <= %d parameter changes, all interleavings of the three public operations' % (3 if q else 5),
-                      replay='%d TLC-simulated histories of depth 7 on a real 6-layer model' % (40 if q else 400))
+                      replay='%d TLC-simulated histories of depth 7 on a real 6-layer model' % (40 if q else 400),
+                      abundance='mixing ratio 10^-e, e in {1,4,8,12,16,20}, one component (H2O | CH4 | N2 of H2-N2) at a time, uniform or in one block of layers',
+                      routes='ListRoutes: 2 pairs, all lists without repetition, ctor/ctor0/assign/append/extend/iadd/remove; %d behaviours of depth 7 replayed' % (30 if q else 300))
     ctx.assumptions = ['fixture opacities are exact per layer (LayerOpacity/FixtureCIA)',
                        'a freshly built model at the current parameters is the reference for history independence',
                        'the reference for model_full_contrib() is a fresh model on which model() ran first (the flow of taurex.py)']
@@ -737,6 +1003,8 @@ def run(ctx):
         if not q:
             all_sources(ctx, 30, 10, 'ktables', 'degenerate')
         layer_classes(ctx, vecs, 12 if q else None)
+        abundance_classes(ctx, vecs, 8 if q else 200)
+        list_routes(ctx, 300 if q else 1500, 30 if q else 300)
         res = core.run_tlc('MC_Compose', 'SIM_Compose.cfg', workers=1, simulate='num=%d' % (40 if q else 400),
                            depth=80, seed=ctx.seed + 1)
         ctx.add_tlc('simulate-behaviours', res, counts=False)
@@ -763,16 +1031,26 @@ def replay(ctx, violations):
         for v in violations:
             vec = v['vector']
             if vec.get('layers'):
-                k = repr((vec['a'], vec['mode'], vec['kname'], vec['third']))
+                k = repr((vec['a'], vec.get('e'), vec['mode'], vec['kname'], vec['third']))
                 if k not in done:
                     done.add(k)
                     env = fxl.OpacityEnv()
                     try:
-                        env.enter(vec['mode'], vec['kname'])
-                        one_layer_class(ctx, fxl.LayerClass(vec['a'], vec['mode'], vec['kname'], vec['third']))
+                        if vec.get('e'):
+                            lc = fxa.AbundanceClass(vec['a'], vec['e'], vec['mode'], vec['kname'], vec['third'])
+                            lc.enter(env)
+                        else:
+                            lc = fxl.LayerClass(vec['a'], vec['mode'], vec['kname'], vec['third'])
+                            env.enter(vec['mode'], vec['kname'])
+                        one_layer_class(ctx, lc)
                     finally:
                         env.leave()
                         install_fixtures()
+            elif vec.get('routes'):
+                k = repr(vec)
+                if k not in done:
+                    done.add(k)
+                    replay_routes(ctx, dict(hist=vec['hist']), {})
             elif vec.get('full'):
                 k = 'full' + str(vec.get('kname'))
                 if k not in done:
